@@ -166,6 +166,14 @@ class Ctx:
         raise ValueError(t)
 
 
+def str_len(ctx, d):
+    """text length of a fixed-width field under the configuration; `raw` fields (no codepage pass, UTF-8
+    validation of the bytes instead, which CBMC finds expensive) are empty except in the tf configuration"""
+    if len(d) > 3 and d[3] == "raw" and ctx.textcfg != "tf":
+        return 0
+    return ctx.textlen(d[2])
+
+
 INT_W = {"u8": 1, "u16": 2, "u32": 4, "i16": 2, "i32": 4, "f32": 4}
 
 
@@ -238,7 +246,7 @@ def rust_any(ctx, d, count=None):
     if k == "dur":
         return "dur_menu_%s(%d)" % (d[2], d[3])
     if k == "str":
-        return "ascii_string::<%d>()" % ctx.textlen(d[2])
+        return "ascii_string::<%d>()" % str_len(ctx, d)
     if k == "strv":
         return "ascii_string::<%d>()" % ctx.textlen(d[2], True)
     if k == "veh":
@@ -328,7 +336,7 @@ def rust_ref(ctx, d, v, lines, ind="    "):
     elif k == "dur":
         L(ind + "o.push_all(&((%s.as_millis() / %d) as %s).to_le_bytes());" % (v, d[3], d[2]))
     elif k == "str":
-        n = ctx.textlen(d[2])
+        n = str_len(ctx, d)
         L(ind + "{ let s = %s.as_bytes(); let mut i = 0; while i < %d { o.push(if i < %d && i < s.len() { s[i] } else { 0 }); i += 1; } }" % (v, d[2], n))
     elif k == "strv":
         n = ctx.textlen(d[2], True)
@@ -364,7 +372,7 @@ def rust_ref(ctx, d, v, lines, ind="    "):
     elif k == "count":
         pass
     elif k == "align4":
-        L(ind + "while (o.n + 1) % 4 != 0 { o.push(0); }")
+        L(ind + "while o.n % 4 != 0 { o.push(0); }")
     elif k == "special":
         s = d[2]
         if s == "GameVersion8":
@@ -525,13 +533,13 @@ pub fn any_smalltype() -> insim::insim::SmallType {
     let u: u32 = kani::any();
     match sel {
         0 => SmallType::None,
-        1 => SmallType::Ssp(Duration::from_millis(u as u64 * 10)),
-        2 => SmallType::Ssg(Duration::from_millis(u as u64 * 10)),
+        1 => SmallType::Ssp(dur_menu_u32(10)),
+        2 => SmallType::Ssg(dur_menu_u32(10)),
         3 => SmallType::Vta(match u % 4 { 1 => VtnAction::End, 2 => VtnAction::Restart, 3 => VtnAction::Qualify, _ => VtnAction::None }),
         4 => SmallType::Tms(u & 1 == 1),
-        5 => SmallType::Stp(Duration::from_millis(u as u64 * 10)),
-        6 => SmallType::Rtp(Duration::from_millis(u as u64 * 10)),
-        7 => SmallType::Nli(Duration::from_millis(u as u64)),
+        5 => SmallType::Stp(dur_menu_u32(10)),
+        6 => SmallType::Rtp(dur_menu_u32(10)),
+        7 => SmallType::Nli(dur_menu_u32(1)),
         8 => SmallType::Alc(insim::insim::PlcAllowedCarsSet::default()),
         9 => SmallType::Lcs(LcsFlags::from_bits_truncate(u)),
         _ => SmallType::Lcl(LclFlags::from_bits_truncate(u)),
@@ -664,19 +672,23 @@ TEXT_KINDS_WIDE = {"Mst", "Msx", "Msl", "Btt", "Rip"}  # widths > 32: t3/t0 only
 
 
 def kind_configs(variant, descs):
-    has_text = any(d[0] in ("str", "strv") for d in descs) or any(
-        d[0] in ("vec", "sub", "arr") and "HostInfo" in str(d) for d in descs)
+    has_text = any(d[0] in ("str", "strv") for d in descs) or "HostInfo" in str(descs)
     has_var = any(d[0] == "strv" for d in descs)
     vec = [d for d in descs if d[0] == "vec"]
-    cfgs = []
     texts = ["t3"]
-    if has_text:
-        texts = ["t3", "t0"] + (["t4"] if has_var else []) + (["tf"] if variant not in TEXT_KINDS_WIDE else [])
+    if has_var:
+        texts = ["t3", "t4", "t0"]
+    elif has_text:
+        maxw = max([d[2] for d in descs if d[0] == "str"] + [32 if "HostInfo" in str(descs) else 0])
+        texts = ["t3"] + (["tf"] if maxw <= 24 else []) + (["t0"] if variant in ("Cpr", "Isi", "Mst") else [])
     counts = [None]
     if vec:
-        counts = [0, 1, 2]
+        counts = [1, 2, 0]
+    cfgs = []
     for t in texts:
         for c in counts:
+            if t != "t3" and c not in (None, 1):
+                continue
             cfgs.append((t, c))
     return cfgs
 
@@ -805,7 +817,7 @@ def generate(repo):
             frame_w = body_w + 2
             if any(d[0] == "align4" for d in descs):
                 frame_w = (frame_w + 3) & ~3
-            textmax = max([ctx.textlen(d[2], d[0] == "strv") for d in descs if d[0] in ("str", "strv")] + [0])
+            textmax = max([(str_len(ctx, d) if d[0] == "str" else ctx.textlen(d[2], True)) for d in descs if d[0] in ("str", "strv")] + [0])
             if "HostInfo" in str(descs):
                 textmax = max(textmax, ctx.textlen(32))
             unwind = max(20, textmax + 3, max([d[2] for d in descs if d[0] == "arr"] + [0]) + 2,
@@ -885,7 +897,8 @@ def generate(repo):
                                             "element count %s" % cnt if cnt is not None else "no counted part"),
                                   functions=["<insim::Packet as BinWrite>::write_options", "<%s as BinWrite>::write_options" % T, "<%s as BinRead>::read_options" % T]))
         # ---- Codec::encode wiring for this kind: Default payload (concrete), both modes (symbolic)
-        out.append("#[kani::proof]\n#[kani::unwind(48)]\n"
+        cw = max([d[2] for d in descs if d[0] == "str"] + [d[2] for d in descs if d[0] == "arr"] + [45]) + 3
+        out.append("#[kani::proof]\n#[kani::unwind(%d)]\n"
                    "#[kani::stub(alloc::fmt::format, stub_format)]\n"
                    "#[kani::stub(insim_core::string::codepages::to_lossy_bytes, stub_to_lossy_bytes)]\n"
                    "#[kani::stub(std::hash::RandomState::new, stub_random_state)]\n"
@@ -909,8 +922,8 @@ def generate(repo):
                    "        let i: usize = kani::any(); kani::assume(i < n); assert!(b[i + 1] == out[i], \"C03:Codec::encode body differs from the packet writer\");\n"
                    "        kani::cover!(true, \"frame produced\"); }\n"
                    "      Err(_) => assert!(false, \"C03:default packet refused by Codec::encode\") }\n"
-                   "    std::mem::forget(r); std::mem::forget(pk);\n}\n" % (low, T, variant, magic))
-        index.append(dict(name="c03_%s_codec" % low, prop="C03", tier="quick" if variant in ("Tiny", "Isi", "Nlp", "Axm") else "thorough", unwind=48, cost=40,
+                   "    std::mem::forget(r); std::mem::forget(pk);\n}\n" % (cw, low, T, variant, magic))
+        index.append(dict(name="c03_%s_codec" % low, prop="C03", tier="quick" if variant in ("Tiny", "Isi", "Nlp", "Axm") else "thorough", unwind=cw, cost=40,
                           bounds="%s: Default payload with symbolic request id, both size modes, through Codec::encode" % variant,
                           functions=["insim::net::Codec::encode", "insim::net::Mode::encode_length", "<insim::Packet as BinWrite>::write_options"],
                           allowed_fail=r"Mode::encode_length\.assertion|in function insim::net::mode::Mode::encode_length|in function insim::net::Mode::encode_length"))
@@ -925,6 +938,8 @@ def generate(repo):
                 w = sum(f_width(ctx, d, cnt) for d in descs)
             if variant in ("Mso", "Iii", "Mtc", "Acr", "Btn"):
                 w = sum(f_width(ctx, d, cnt) for d in descs if d[0] != "strv") + 8
+            if any(d[0] == "align4" for d in descs):
+                w = ((w + 2 + 3) & ~3) - 2
             tag = "%s%s" % (low, "" if cnt is None else "_n%d" % cnt)
             cntpos = None
             off = 0
